@@ -88,7 +88,11 @@ ALL = [f"C{i:02d}" for i in range(1, 21)]
 m = dict(version=1, setup_cmd="./setup.sh",
          hooks=dict(guard="LMM_VERIF", enable="no source hook needed: shims are installed from the harness process by replacing module-level names; LMM_VERIF=1 is exported by ./check for completeness",
                     baseline_off_cmd="/verif/run_baseline.sh", source_commits=[], add_only=True),
-         engines=[dict(name="symx", path="symx/engine.py", serves_properties=sorted(CHECKS), kind_free_text=SYMX)],
+         engines=[dict(name="symx", path="symx/engine.py", serves_properties=sorted(CHECKS), kind_free_text=SYMX),
+                  dict(name="crosshair", path="harness/crosshair_c04.py", serves_properties=["C04", "C16"], kind_free_text="CrossHair 0.0.110 (z3) on PEP-316 contracts over the real label / node-list functions; the C16 harness file is generated from the AST of logprob_trans"),
+                  dict(name="z3-fp", path="symx/fp.py", serves_properties=["C09", "C17"], kind_free_text="z3 QF_FP lemmas generated from the AST of BaseMatching.next"),
+                  dict(name="sqlshim", path="symx/sqlshim.py", serves_properties=["C11", "C12", "C18"], kind_free_text="parsing SQL stand-in for sqlite3 with symbolic cells, validated against the real sqlite3 at every run"),
+                  dict(name="angles", path="symx/angles.py", serves_properties=["C14"], kind_free_text="exact angle algebra ((sin,cos) pairs over z3 reals) for dist_latlon")],
          checks=[], not_applicable=[],
          notes="All checks are bounded symbolic checks (z3 decides every path within stated bounds); see DESIGN.md. Exit 3 = harness error (never a verdict).")
 for pid in ALL:
